@@ -268,6 +268,82 @@ def run_bigfilter(ctx, corr, binp, drv, reps):
     corr.extra['large_set_filter_runs'] = runs
 
 
+MODEL_MAX_LONG = 8192   # longest pattern/name the extracted model+spec evaluate in the quick tier (quadratic: 16 pairs of
+                        # 8192 bytes take 3 s, of 65536 bytes 390 s, 4 pairs with 5000 classes 13 s)
+
+
+def short(b):
+    t = b.decode('utf-8', 'backslashreplace')
+    return t if len(t) <= 60 else '%s...%s (%d bytes)' % (t[:30], t[-20:], len(b))
+
+
+def run_long(ctx, corr, binp, drv):
+    """long patterns and names; above MODEL_MAX_LONG the quick tier compares with the by-construction expectation and the
+    independent Go reading of the grammar only, the thorough tier sends everything through the extracted model and spec"""
+    fin, fout = os.path.join(ctx.dir, 'long.in'), os.path.join(ctx.dir, 'long.out')
+    rc, o = ctx.run([binp, 'long', fin, fout], timeout=1200)
+    if rc != 0:
+        raise V.BuildError('c17 long failed: ' + o[-1500:])
+    ins = [l for l in open(fin).read().split('\n') if l]
+    outs = [l for l in open(fout).read().split('\n') if l]
+    sel = []
+    for i, l in enumerate(outs):
+        size = int(l.split(' ')[2])
+        if ctx.tier == 'thorough' or (size <= MODEL_MAX_LONG):
+            sel.append(i)
+
+    def one(i):
+        rc, o = ctx.run([drv, 'lines'], stdin=(ins[i] + '\n').encode(), timeout=2400)
+        if rc != 0 or len(o.strip()) < 3:
+            raise V.BuildError('glob_driver lines (long) failed: ' + o[-500:])
+        return i, o.strip()
+
+    ml = {}
+    with ThreadPoolExecutor(NSH) as ex:
+        for i, o in ex.map(one, sel):
+            ml[i] = o
+    recorded = 0
+    for i, l in enumerate(outs):
+        r, shape, size, want, gor = l.split(' ')
+        key = 'long %s' % size
+        corr.distribution[key] = corr.distribution.get(key, 0) + 1
+        ph, nh = ins[i].split(' ')
+        p = bytes.fromhex(ph) if ph != '-' else b''
+        nm = bytes.fromhex(nh) if nh != '-' else b''
+        case = {'id': 5 * 10 ** 9 + i, 'klass': 'long',
+                'input': {'shape': shape, 'size': int(size), 'pattern': short(p), 'name': short(nm),
+                          'pattern_len': len(p), 'name_len': len(nm), 'pattern_hex': ph, 'name_hex': nh}}
+        m = ml.get(i)
+        bad = None
+        for obs, what_impl in ((r[0], 'match(pattern, name)'), (r[1], 'membership of name in NewSet(name).Filter(pattern)')):
+            exp_bool = want == 'M'
+            if obs == 'P':
+                bad = (what_impl + ' panics', 'PANIC', WORDS[want])
+            elif (obs == 'M') != exp_bool:
+                bad = (what_impl + ' differs from the result this long input has by construction', WORDS.get(obs, obs), WORDS[want])
+            elif (obs == 'M') != (gor == 'M'):
+                bad = (what_impl + ' differs from the documented grammar (independent Go reading, harness/c17/oracle.go)', WORDS.get(obs, obs), WORDS[gor])
+            elif m is not None and (obs == 'M') != (m[1] == 'M'):
+                bad = (what_impl + ' differs from the documented grammar (extracted declarative spec spec_match)', WORDS.get(obs, obs), WORDS[m[1]])
+            if bad:
+                break
+        if bad:
+            if recorded < 5:
+                corr.violations.append({'klass': 'long', 'case': case, 'impl': bad[1], 'expected': bad[2], 'what': bad[0]})
+                recorded += 1
+        elif r[0] != want or r[0] != gor or (m is not None and r[0] != m[0]):
+            # only the bad-pattern / no-match distinction differs
+            corr.disagreements.append({'klass': 'long', 'case': case, 'impl': WORDS.get(r[0], r[0]),
+                                       'model': WORDS.get(m[0] if m is not None else want, '?')})
+    corr.evaluations += len(outs)
+    corr.distinct_nontrivial += len(outs)
+    corr.extra['long_pairs'] = len(outs)
+    corr.extra['long_pairs_through_extracted_model'] = len(sel)
+    corr.extra['long_model_limit'] = ('quick: patterns/names up to %d bytes go through the extracted model and spec, longer ones (65536 bytes, '
+                                      '5000 classes) are compared with the by-construction result and the independent Go reading only; '
+                                      'thorough: all sizes through the extracted model and spec' % MODEL_MAX_LONG)
+
+
 def run_rand(ctx, corr, binp, drv, n):
     fin, fout = os.path.join(ctx.dir, 'rand.in'), os.path.join(ctx.dir, 'rand.out')
     rc, o = ctx.run([binp, 'rand', str(n), fin, fout])
@@ -341,6 +417,7 @@ def correspondence(ctx):
     run_filter(ctx, corr, binp, drv, 3, 3)
     run_sweep(ctx, corr, binp, drv)
     run_bigfilter(ctx, corr, binp, drv, 3 if ctx.tier == 'quick' else 12)
+    run_long(ctx, corr, binp, drv)
     if ctx.tier == 'quick':
         run_enum(ctx, corr, binp, drv, 0, 4, 4, 'q')
     else:
@@ -379,6 +456,10 @@ def correspondence(ctx):
                  "(1023, 1024, 1025, 1027, 2049, 4099, 10007 generated paths; patterns *, *x, one literal element, a class, a malformed one) under "
                  "GOMAXPROCS 1, 2, 3, 4, 7 and the default, 3 runs each (thorough: 12) on freshly built maps, membership of every element "
                  "compared with the extracted model's and spec's filter and the size with the count known from how the paths are built; "
+                 "long inputs (class long): patterns/names of 255, 256, 1023, 1024, 4095, 4096, 4097, 8192, 65536 bytes in the shapes one long "
+                 "segment, many short segments, long literal pattern equal to the name (and off by one byte), * + long suffix, long run of ?, "
+                 "long malformed pattern, and a class repeated 5000 times, compared with the result known by construction, the independent Go "
+                 "reading of the grammar and (up to 8192 bytes in the quick tier, all sizes in the thorough tier) the extracted model and spec; "
                  "random pairs (fixed regression corpus first): ASCII (letters plus the punctuation "
                  "that shells/fnmatch treat specially: ! { } , ~ + @ ( ) | ...) and UTF-8 token patterns with a name derived from the pattern and then mutated, star followed by single-character terms "
                  "against multi-byte names (F17 shape), ill-formed bytes in names, malformed pattern pieces, ill-formed bytes in patterns. "
@@ -403,7 +484,10 @@ def replay(ctx, case):
                'set_size': inp.get('set_size', 0), 'gomaxprocs': inp.get('gomaxprocs', 0)}, open(p, 'w'))
     rc, o = ctx.run([binp, 'replay', p])
     print(o.strip())
-    rc, o = ctx.run('echo %s %s | %s lines' % (inp.get('pattern_hex', '-'), inp.get('name_hex', '-'), drv))
+    if max(len(inp.get('pattern_hex', '')), len(inp.get('name_hex', ''))) > 2 * MODEL_MAX_LONG:
+        print('model / spec: input longer than %d bytes, not evaluated by the extracted runner here (thorough tier does)' % MODEL_MAX_LONG)
+        return
+    rc, o = ctx.run([drv, 'lines'], stdin=('%s %s\n' % (inp.get('pattern_hex', '-'), inp.get('name_hex', '-'))).encode())
     o = o.strip()
     if len(o) >= 3:
         print('model gmatch: %s' % WORDS.get(o[0], o[0]))
